@@ -557,9 +557,9 @@ Proof.
   cbn [option_map] in Hj. inversion Hj as [Hid].
   eapply find_index_nth; [exact Hx|rewrite Hid; apply nid_eqb_refl|].
   intros j' y Hlt Hy. apply nid_eqb_neq. intro E.
-  assert (nth_error (ids l) j' = Some cur) by (rewrite nth_error_ids, Hy; cbn; congruence).
-  assert (nth_error (ids l) j = Some cur) by (rewrite nth_error_ids, Hx; cbn; congruence).
-  pose proof (NoDup_nth_inj _ _ _ _ Hnd H H0). lia.
+  assert (Ha : nth_error (ids l) j' = Some cur) by (rewrite nth_error_ids, Hy; cbn; congruence).
+  assert (Hb : nth_error (ids l) j = Some cur) by (rewrite nth_error_ids, Hx; cbn; congruence).
+  pose proof (NoDup_nth_inj _ _ _ _ Hnd Ha Hb). lia.
 Qed.
 
 Lemma nth_error_block {A} (pre blk post : list A) k : (k < length blk)%nat ->
@@ -819,7 +819,7 @@ Qed.
 
 Lemma track_add_slots t rid st st' : track_add t rid st = Ok st' -> slots st' = slots st.
 Proof.
-  unfold track_add. destruct (live_track t st); [|discriminate]. destruct (t_clearing t0); intro H; inversion H; reflexivity.
+  unfold track_add. destruct (live_track t st) as [tr|]; [|discriminate]. destruct (t_clearing tr); intro H; inversion H; reflexivity.
 Qed.
 
 Lemma bind_all_slots rid refs : forall st st', bind_all rid refs st = Ok st' -> slots st' = slots st.
@@ -1212,7 +1212,7 @@ Section Safe.
   Lemma step_track_ok o st : WF st ->
     match o with OTNew _ | OTDel _ | OTAssign _ _ | OTMoveAssign _ _ | OTNotify _ => out_ok st (step prog rec o st) | _ => True end.
   Proof.
-    intro H. destruct o; try exact I; cbn [step].
+    intro H. destruct o as [t|t|td ts|td ts|t|s rk body refs|s rk|sn so|sn so|sd ss|sd ss|s arg catch|s b|s|s|s|g k|gn go|gn go|gd gs|gd gs|g|g s c front mv|g arg catch|g|g b|g|s g|c|cn co|cd cs|c|c b|c|c|k c|k|k c|kn ko|kd ks|k1 k2|k c|k|k b|k|k| | ]; try exact I; cbn [step].
     - (* OTNew *)
       unfold fresh_track. destruct (aget t (tracks st)) eqn:Hf; cbn [andb]; [apply skip_ok; exact H|].
       destruct (N.ltb_spec t 1000); [|apply skip_ok; exact H].
@@ -1259,7 +1259,7 @@ Section Safe.
     | _ => True
     end.
   Proof.
-    intro H. pose proof (wf_c _ H) as Hc. destruct o; try exact I; cbn [step].
+    intro H. pose proof (wf_c _ H) as Hc. destruct o as [t|t|td ts|td ts|t|s rk body refs|s rk|sn so|sn so|sd ss|sd ss|s arg catch|s b|s|s|s|g k|gn go|gn go|gd gs|gd gs|g|g s c front mv|g arg catch|g|g b|g|s g|c|cn co|cd cs|c|c b|c|c|k c|k|k c|kn ko|kd ks|k1 k2|k c|k|k b|k|k| | ]; try exact I; cbn [step].
     - (* OSNew *)
       unfold fresh_slot. destruct (aget s (slots st)) eqn:Hf; cbn [andb]; [apply skip_ok; exact H|].
       destruct (forallb _ refs) eqn:Hlive; [|apply skip_ok; exact H].
@@ -1356,7 +1356,7 @@ Section Safe.
     | _ => True
     end.
   Proof.
-    intro H. pose proof (wf_c _ H) as Hc. destruct o; try exact I; cbn [step].
+    intro H. pose proof (wf_c _ H) as Hc. destruct o as [t|t|td ts|td ts|t|s rk body refs|s rk|sn so|sn so|sd ss|sd ss|s arg catch|s b|s|s|s|g k|gn go|gn go|gd gs|gd gs|g|g s c front mv|g arg catch|g|g b|g|s g|c|cn co|cd cs|c|c b|c|c|k c|k|k c|kn ko|kd ks|k1 k2|k c|k|k b|k|k| | ]; try exact I; cbn [step].
     - (* OGNew *)
       unfold fresh_sig. destruct (aget g (sigs st)) eqn:Hf; cbn [andb]; [apply skip_ok; exact H|].
       destruct (negb (gk_track k) || fresh_track (trackable_of_sig g) st); [|apply skip_ok; exact H].
@@ -1557,7 +1557,7 @@ Section Safe.
     | _ => True
     end.
   Proof.
-    intro H. pose proof (wf_c _ H) as Hc. destruct o; try exact I; cbn [step].
+    intro H. pose proof (wf_c _ H) as Hc. destruct o as [t|t|td ts|td ts|t|s rk body refs|s rk|sn so|sn so|sd ss|sd ss|s arg catch|s b|s|s|s|g k|gn go|gn go|gd gs|gd gs|g|g s c front mv|g arg catch|g|g b|g|s g|c|cn co|cd cs|c|c b|c|c|k c|k|k c|kn ko|kd ks|k1 k2|k c|k|k b|k|k| | ]; try exact I; cbn [step].
     - (* OCEmpty *)
       destruct (fresh_conn c st); [|apply skip_ok; exact H].
       destruct (set_conn_ok (WC c) None st H) as (st' & E & G); [intros i n X; discriminate|].
@@ -1669,4 +1669,169 @@ Section Safe.
     - (* OKQuery *)
       destruct (get_connptr (WK k) st) as [p|] eqn:Hp; [|apply skip_ok; exact H]. eapply conn_query_ok; eauto.
   Qed.
+  (* ---- connect ---- *)
+
+  Lemma step_connect_ok g s c front mv st : WF st -> out_ok st (step prog rec (OGConnect g s c front mv) st).
+  Proof.
+    intro H. cbn [step].
+    destruct (live_sig g st) as [go|] eqn:Hl; [|apply skip_ok; exact H].
+    unfold live_slot. destruct (get_sb (LVar s) st) as [src|] eqn:Hsrc; [|apply skip_ok; exact H].
+    destruct (rkind_eqb _ _); [|apply skip_ok; exact H].
+    destruct (ensure_impl_G g go st H Hl) as (i & st1 & E & G1 & P & _ & _ & S1 & _). rewrite E.
+    pose proof (proj1 G1) as W1.
+    assert (Hsrc1 : get_sb (LVar s) st1 = Some src) by (rewrite get_sb_var, S1; exact Hsrc).
+    destruct (aget i (impls st1)) as [im|] eqn:Hi1; [|contradiction].
+    (* the slot base to insert, in a state where the source variable has been updated *)
+    assert (Hmv : exists sb src' st2, (if mv then sb_move src st1
+                      else '(sb, st2) <- sb_copy src st1 ;; Ok (sb, src, st2)) = Ok (sb, src', st2) /\
+                    WFp sb (set_sb (LVar s) src' st2) /\ Grow st1 (set_sb (LVar s) src' st2)).
+    { destruct mv.
+      - destruct (sb_move_var_ok s src st1 (wf_c _ W1) (wf_noclear _ W1) Hsrc1) as (sb & src' & st2 & E2 & W2 & G2).
+        exists sb, src', st2. auto.
+      - destruct (sb_copy_ok (LVar s) src st1 (wf_c _ W1) (wf_noclear _ W1) Hsrc1) as (sb & st2 & E2 & W2 & G2 & S2).
+        exists sb, src, st2. rewrite E2. cbn [rbind]. split; [reflexivity|].
+        assert (Hsrc2 : get_sb (LVar s) st2 = Some src) by (rewrite get_sb_var, S2, <- get_sb_var; exact Hsrc1).
+        rewrite (set_sb_var_same _ _ _ Hsrc2). auto. }
+    destruct Hmv as (sb & src' & st2 & E2 & W3 & G3). rewrite E2.
+    set (st3 := set_sb (LVar s) src' st2) in *.
+    assert (Hi3 : aget i (impls st3) = Some im) by (rewrite (gr_impls _ _ G3); exact Hi1).
+    destruct (impl_insert_ok i front sb st3 im W3 Hi3) as (r & st4 & E4 & W4 & C4 & Hn4 & _).
+    rewrite E4.
+    assert (G14 : Guar st1 st4).
+    { apply Guar_of_Casc; [exact W1|exact W4|]. eapply Casc_trans; [apply Grow_Casc; exact G3|exact C4]. }
+    assert (G4 : Guar st st4) by (eapply Guar_trans; eauto).
+    assert (Hhas : forall i' n', Some (i, Real (next_nid st3)) = Some (i', n') -> has_rep i' n' st4).
+    { intros i' n' X. inversion X; subst i' n'. eexists _, r. split; [exact Hn4|reflexivity]. }
+    destruct c as [cv|]; [|exact G4].
+    destruct (fresh_conn cv st4).
+    - destruct (set_conn_ok (WC cv) (Some (i, Real (next_nid st3))) st4 (proj1 G4) Hhas) as (st5 & E5 & G5).
+      rewrite E5. cbn [liftu lift out_ok]. eapply Guar_trans; eauto.
+    - destruct (get_connptr (WC cv) st4) eqn:Hcv; [|exact G4].
+      pose proof (conn_set_G st4 (WC cv) (Some (i, Real (next_nid st3))) (proj1 G4) Hhas) as X.
+      destruct (conn_set (WC cv) (Some (i, Real (next_nid st3))) st4); cbn [liftu lift out_ok];
+        [eapply Guar_trans; [exact G4|tauto]|subst; exact safe_unsupported].
+  Qed.
+
+  Theorem step_ok o st : WF st -> out_ok st (step prog rec o st).
+  Proof.
+    intro H.
+    pose proof (step_track_ok o st H) as X1. pose proof (step_slot_ok o st H) as X2.
+    pose proof (step_sig_ok o st H) as X3. pose proof (step_conn_ok o st H) as X4.
+    destruct o; try exact X1; try exact X2; try exact X3; try exact X4.
+    - apply step_connect_ok. exact H.
+    - cbn [step]. apply out_ok_done_ev. exact H.
+    - cbn [step out_ok]. apply Guar_refl. exact H.
+  Qed.
+
+  Lemma run_ops_ok ops : forall st, WF st -> out_ok st (run_ops prog rec ops st).
+  Proof.
+    induction ops as [|o ops IH]; intros st H; cbn [run_ops]; [apply Guar_refl; exact H|].
+    pose proof (step_ok o st H) as X. destruct (step prog rec o st) as [st1 u|st1|e]; cbn [out_ok] in X.
+    - pose proof (IH st1 (proj1 X)) as Y. destruct (run_ops prog rec ops st1); cbn [out_ok] in *;
+        try (eapply Guar_trans; eauto); exact Y.
+    - exact X.
+    - exact X.
+  Qed.
+
+  Lemma run_callee_ok c st : WF st -> out_ok st (run_callee prog rec c st).
+  Proof.
+    intro H. destruct c as [b arg|g arg]; cbn [run_callee].
+    - destruct (aget b (p_scripts prog)) as [[ops rs]|]; [|apply Guar_refl; exact H].
+      pose proof (run_ops_ok ops st H) as X. destruct (run_ops prog rec ops st); exact X.
+    - apply emit_sig_ok. exact H.
+  Qed.
 End Safe.
+
+(* ------------------------------------------------------------------ *)
+(* Closing the knot                                                     *)
+
+Lemma run_callee_fuel_ok prog fuel : forall c st, WF st -> out_ok st (run_callee_fuel prog fuel c st).
+Proof.
+  induction fuel as [|fuel IH]; intros c st H; cbn [run_callee_fuel].
+  - exact safe_fuel.
+  - apply run_callee_ok; [exact IH|exact H].
+Qed.
+
+Lemma phc_zero_no_ph l : phc (ids l) = O -> forall nd n, In nd l -> n_id nd <> Ph n.
+Proof.
+  unfold phc, ids. induction l as [|x l IH]; intros Hz nd n Hin; [destruct Hin|].
+  cbn [map filter] in Hz. destruct Hin as [<-|Hin].
+  - intro E. rewrite E in Hz. cbn [nid_is_ph length] in Hz. discriminate.
+  - apply IH; [|exact Hin]. destruct (nid_is_ph (n_id x)); [cbn [length] in Hz; discriminate|exact Hz].
+Qed.
+
+Lemma no_ph_phc_zero l : (forall nd n, In nd l -> n_id nd <> Ph n) -> phc (ids l) = O.
+Proof.
+  unfold phc, ids. induction l as [|x l IH]; intro Hn; [reflexivity|].
+  cbn [map filter]. destruct (n_id x) as [k|k] eqn:E; cbn [nid_is_ph].
+  - apply IH. intros nd n Hin. apply Hn. right; exact Hin.
+  - exfalso. apply (Hn x k); [left; reflexivity|exact E].
+Qed.
+
+Lemma Guar_quiescent st st' : quiescent st -> Guar st st' -> quiescent st'.
+Proof.
+  intros Q [W S] i im' Hi. destruct (sb_impls _ _ S i im' Hi) as [(im & H0 & (S1 & S2 & S3 & S4 & S5 & S6))|(_ & (A & B & C & D & E))].
+  - destruct (Q i im H0) as (Q1 & Q2 & Q3 & Q4 & Q5).
+    split; [congruence|]. split; [rewrite S5 by exact Q1; exact Q2|]. split; [congruence|]. split; [congruence|].
+    apply phc_zero_no_ph. pose proof (no_ph_phc_zero _ Q5). lia.
+  - split; [exact A|]. split; [exact C|]. split; [exact B|]. split; [exact D|]. apply phc_zero_no_ph. exact E.
+Qed.
+
+Theorem run_top_safe : forall p fuel ops st, WF_top st ->
+  match run_top p fuel ops st with Ok st' => WF_top st' | Err e => safe_err e end.
+Proof.
+  intros p fuel ops. induction ops as [|o ops IH]; intros st [H Q]; cbn [run_top]; [split; assumption|].
+  pose proof (step_ok p (run_callee_fuel p fuel) (run_callee_fuel_ok p fuel) o st H) as X.
+  destruct (step p (run_callee_fuel p fuel) o st) as [st1 u|st1|e]; cbn [out_ok] in X.
+  - apply IH. split; [exact (proj1 X)|eapply Guar_quiescent; eauto].
+  - apply IH. assert (G : Guar st (emit_ev EExn st1)) by (eapply Guar_sim_r; [apply sim_emit_ev|exact X]).
+    split; [exact (proj1 G)|eapply Guar_quiescent; eauto].
+  - exact X.
+Qed.
+
+Theorem ll_safe : forall (fuel : nat) (p : program),
+  match run_program fuel p with Ok _ => True | Err e => safe_err e end.
+Proof.
+  intros fuel p. unfold run_program.
+  pose proof (run_top_safe p fuel (p_main p) st0 WF_top_st0) as X.
+  destruct (run_top p fuel (p_main p) st0); [exact I|exact X].
+Qed.
+
+Print Assumptions ll_safe.
+Print Assumptions run_top_safe.
+
+(* [all_reps] enumerates exactly the reps reachable through [get_sb] *)
+Lemma var_reps_sound st r : WF st -> In r (var_reps st) ->
+  exists s sb, get_sb (LVar s) st = Some sb /\ sb_rep sb = Some r.
+Proof.
+  intros H Hin. apply in_var_reps_l in Hin. destruct Hin as (s & sb & Hi & Hr).
+  exists s, sb. split; [|exact Hr]. rewrite get_sb_var.
+  rewrite (in_aget_nodup _ _ _ (ws_keys_slots _ (wc_struct _ (wf_c _ H))) Hi). reflexivity.
+Qed.
+
+Lemma node_reps_sound st r : WF st -> In r (node_reps st) ->
+  exists i n sb, get_sb (LNode i n) st = Some sb /\ sb_rep sb = Some r.
+Proof.
+  intros H Hin. pose proof (wc_struct _ (wf_c _ H)) as Hs.
+  apply in_node_reps_l in Hin. destruct Hin as (i & im & Hi & Hn).
+  apply in_nodes_reps in Hn. destruct Hn as (nd & Hnd & Hr).
+  pose proof (in_aget_nodup _ _ _ (ws_keys_impls _ Hs) Hi) as Hg.
+  exists i, (n_id nd), (n_sb nd). split; [|exact Hr]. rewrite get_sb_node, Hg.
+  rewrite (find_node_in_nodup _ _ (proj1 (ws_nodes _ Hs i im Hg)) Hnd). reflexivity.
+Qed.
+
+Lemma rep_ids_injective st l l' sb sb' r r' : WF st ->
+  get_sb l st = Some sb -> sb_rep sb = Some r -> get_sb l' st = Some sb' -> sb_rep sb' = Some r' ->
+  r_id r = r_id r' -> l = l'.
+Proof.
+  intros H G1 R1 G2 R2 E. destruct (loc_eqb_spec l l') as [|Hne]; [assumption|exfalso].
+  destruct (all_reps_set_sb l st sb (mkSB None false) G1) as (A & B & Ea & Ea').
+  unfold sb_reps in Ea, Ea'. rewrite R1 in Ea. cbn [sb_rep optl app] in Ea, Ea'.
+  assert (G2' : get_sb l' (set_sb l (mkSB None false) st) = Some sb') by (rewrite get_set_sb_other by congruence; exact G2).
+  pose proof (get_sb_in_all_reps _ _ _ _ G2' R2) as Hin. rewrite Ea' in Hin.
+  pose proof (ws_rids _ (wc_struct _ (wf_c _ H))) as Hnd. rewrite Ea, map_app in Hnd. cbn [map] in Hnd.
+  apply NoDup_remove_2 in Hnd. apply Hnd. rewrite <- map_app, E. apply in_map. exact Hin.
+Qed.
+
+Print Assumptions wf_conn_target.
+Print Assumptions rep_ids_injective.
